@@ -25,8 +25,9 @@ class HWalker(Walker):
         self._frames = []
         self._cur_fn = root_fn
 
-    # -- which function does a call through a local name reach ------------------------------------------------------------
+    # -- which function does a call reach -------------------------------------------------------------------------------------
     def _value_target(self, call, st):
+        """A call through a local name bound to a function value: ('closure' | 'module', FunctionDef)."""
         v = st.env.get(call.func.id)
         if v is None:
             return None
@@ -35,13 +36,77 @@ class HWalker(Walker):
             return ('closure', fn) if isinstance(fn, ast.FunctionDef) else None
         if v[0] == 'name' and v[1] in self.facts.funcs:
             return ('module', self.facts.funcs[v[1]])
+        if v[0] == 'attr' and v[1][0] == 'name' and v[1][1] in self.facts.classes:
+            # an unbound method used as a plain function: Cls.method(obj, ...)
+            owner, m = self.facts.method(v[1][1], v[2])
+            if m is not None and not m.decorator_list:
+                return ('module', m)
+            return None
+        if v[0] == 'lambda' and v[1] in self._lambdas:
+            lnode, lenv = self._lambdas[v[1]]
+            cache = self.__dict__.setdefault('_lambda_defs', {})
+            if v[1] not in cache:
+                fn = ast.FunctionDef(name='<lambda>', args=lnode.args, body=[ast.copy_location(ast.Return(value=lnode.body), lnode.body)],
+                                     decorator_list=[], returns=None, type_comment=None)
+                ast.copy_location(fn, lnode)
+                fn.body[0]._parent = fn
+                cache[v[1]] = fn
+            return ('lambda', cache[v[1]], lenv)
         return None
 
+    def _method_target(self, call, st):
+        """`x.m(...)` where the class of x is known (x was built by a constructor on this path, or an isinstance fact holds) and
+        every candidate class resolves m to the same definition; `Cls.m(...)` for static / class methods.
+        Returns (FunctionDef, {pre-bound parameter: value}, [remaining positional parameter names]) or None."""
+        f = call.func
+        if not isinstance(f, ast.Attribute) or self.inline_mode != 'all':
+            return None
+        if isinstance(f.value, ast.Name) and f.value.id in self.facts.classes and f.value.id not in st.env:
+            owner, m = self.facts.method(f.value.id, f.attr)
+            if m is None:
+                return None
+            decos = {getattr(d, 'id', getattr(d, 'attr', None)) for d in m.decorator_list}
+            pos = [a.arg for a in m.args.args]
+            if 'staticmethod' in decos:
+                return m, {}, pos
+            if 'classmethod' in decos and pos:
+                return m, {pos[0]: ('name', f.value.id)}, pos[1:]
+            return None
+        recv = self.sym(f.value, st)
+        if recv[0] == 'new':
+            classes = {recv[1]}
+        else:
+            fact = st.facts.get(recv)
+            classes = set(fact['isa']) if fact else set()
+        defs = {}
+        for c in classes:
+            if c in self.facts.classes:
+                owner, m = self.facts.method(c, f.attr)
+                if m is not None:
+                    defs[id(m)] = m
+        if len(defs) != 1:
+            return None
+        m = next(iter(defs.values()))
+        decos = {getattr(d, 'id', getattr(d, 'attr', None)) for d in m.decorator_list}
+        pos = [a.arg for a in m.args.args]
+        if decos - {'staticmethod', 'classmethod'}:
+            return None          # property, abstractmethod, ...
+        if 'staticmethod' in decos:
+            return m, {}, pos
+        if not pos:
+            return None
+        if 'classmethod' in decos:
+            return None
+        return m, {pos[0]: recv}, pos[1:]
+
     def _inlinable(self, fn, call):
-        return not (fn.name in self.opaque or fn.name in self._inline_stack or len(self._inline_stack) >= 8 or fn.args.vararg
+        return not (fn.name in self.opaque or (fn.name in self._inline_stack and fn.name != '<lambda>') or len(self._inline_stack) >= 10 or fn.args.vararg
                     or any(isinstance(a, ast.Starred) for a in call.args))
 
     def inline_target(self, call, st):
+        if isinstance(call, ast.Call) and isinstance(call.func, ast.Attribute):
+            t = self._method_target(call, st)
+            return t[0] if t is not None and self._inlinable(t[0], call) else None
         if isinstance(call, ast.Call) and isinstance(call.func, ast.Name) and call.func.id in st.env:
             if self.inline_mode != 'all':
                 return super().inline_target(call, st)
@@ -63,7 +128,40 @@ class HWalker(Walker):
         return None
 
     def inline_call(self, call, st, done):
-        if not (isinstance(call, ast.Call) and isinstance(call.func, ast.Name)):
+        """Inline a call; inlinable calls nested in its arguments are walked first (argument evaluation order)."""
+        if not isinstance(call, ast.Call) or self.inline_target(call, st) is None:
+            return None
+        operands = list(call.args) + [k.value for k in call.keywords]
+        if isinstance(call.func, ast.Attribute):
+            operands.insert(0, call.func.value)
+        if any(isinstance(m, ast.Call) and self.inline_target(m, st) is not None for o in operands for m in ast.walk(o)):
+            tup = ast.copy_location(ast.Tuple(elts=operands, ctx=ast.Load()), call)
+            out = []
+            for s, t2 in self.expand_calls(tup, st, done):
+                elts = list(t2.elts)
+                func = call.func
+                if isinstance(call.func, ast.Attribute):
+                    func = ast.copy_location(ast.Attribute(value=elts.pop(0), attr=call.func.attr, ctx=ast.Load()), call.func)
+                n = len(call.args)
+                call2 = ast.copy_location(ast.Call(func=func, args=elts[:n], keywords=[ast.keyword(arg=k.arg, value=v) for k, v in zip(call.keywords, elts[n:])]), call)
+                r = self._inline_flat(call2, s, done)
+                if r is None:
+                    # cannot happen for a target that was inlinable before its operands were evaluated; keep the value opaque
+                    r = [(s, self.sym(call2, s))]
+                out.extend(r)
+            return out
+        return self._inline_flat(call, st, done)
+
+    def _inline_flat(self, call, st, done):
+        if not isinstance(call, ast.Call):
+            return None
+        if isinstance(call.func, ast.Attribute):
+            t = self._method_target(call, st)
+            if t is None or not self._inlinable(t[0], call):
+                return None
+            fn, pre, pos = t
+            return self._run_inlined(call, st, done, fn, {}, pre, pos)
+        if not isinstance(call.func, ast.Name):
             return None
         if call.func.id not in st.env or self.inline_mode != 'all':
             fn = self.inline_target(call, st)
@@ -79,14 +177,17 @@ class HWalker(Walker):
         t = self._value_target(call, st)
         if t is None or not self._inlinable(t[1], call):
             return None
-        kind, fn = t
-        base_env = self._defining_env(fn, st) if kind == 'closure' else {}
+        kind, fn = t[0], t[1]
+        base_env = self._defining_env(fn, st) if kind == 'closure' else (t[2] if kind == 'lambda' else {})
         if base_env is None:
             return None
-        pos = [a.arg for a in fn.args.args]
+        return self._run_inlined(call, st, done, fn, base_env, {}, [a.arg for a in fn.args.args])
+
+    def _run_inlined(self, call, st, done, fn, base_env, pre_bound, pos):
+        """Walk the body of `fn` with its parameters bound to the symbolic arguments of `call`; [(state, return value)] or None."""
         if len(call.args) > len(pos):
             return None
-        bound = {}
+        bound = dict(pre_bound)
         for p_, a in zip(pos, call.args):
             bound[p_] = self.sym(a, st)
         names = set(pos) | {a.arg for a in fn.args.kwonlyargs}
@@ -108,7 +209,8 @@ class HWalker(Walker):
                     return None
         if fn.args.kwarg:
             bound[fn.args.kwarg.arg] = ('kwdict', tuple(extra))
-        defaults = dict(zip(pos[len(pos) - len(fn.args.defaults):], fn.args.defaults))
+        allpos = [a.arg for a in fn.args.args]
+        defaults = dict(zip(allpos[len(allpos) - len(fn.args.defaults):], fn.args.defaults))
         for a, d in zip(fn.args.kwonlyargs, fn.args.kw_defaults):
             if d is not None:
                 defaults[a.arg] = d
@@ -152,7 +254,6 @@ class HWalker(Walker):
                 done.append(s)
         return out
 
-
     # -- value forms the base walker leaves opaque ---------------------------------------------------------------------------------
     def sym(self, node, st):
         if isinstance(node, ast.JoinedStr):
@@ -178,6 +279,24 @@ class HWalker(Walker):
     def fork(self, test_node, st, done, then_body, else_body):
         return self.fork_sym(split_isinstance(self.sym(test_node, st)), test_node, st, done, then_body, else_body)
 
+    def _stmt_rest(self, node, st, done):
+        if isinstance(node, ast.AugAssign):
+            # calls inside the right-hand side of `x += ...` are followed like those of a plain assignment
+            pairs = self.expand_calls(node.value, st, done)
+            if len(pairs) != 1 or pairs[0][1] is not node.value:
+                out = []
+                for s, e in pairs:
+                    fake = ast.copy_location(ast.AugAssign(target=node.target, op=node.op, value=e), node)
+                    out.extend(super()._stmt_rest(fake, s, done))
+                return out
+        if isinstance(node, ast.Assert):
+            out = []
+            for s, e in self.expand_calls(node.test, st, done):
+                s.events.append(('assert', self.sym(e, s), node))
+                out.append(s)
+            return out
+        return super()._stmt_rest(node, st, done)
+
     # -- conditional expressions around inlinable calls fork the path like an if statement ---------------------------------------
     def expand_calls(self, node, st, done):
         if node is not None and self.inline_mode == 'all':
@@ -200,7 +319,37 @@ class HWalker(Walker):
                         s2.events.append(('cond', test, pol, n))
                     out.extend(self.expand_calls(_replace(node, n, n.body if pol else n.orelse), s2, done))
                 return out
-        return super().expand_calls(node, st, done)
+        # the base algorithm (innermost inlinable call first, its result bound to a temporary), rebuilding only the spine of
+        # the expression instead of deep-copying it (a deep copy follows the parent links through the whole module)
+        if node is None or not any(isinstance(n, ast.Call) and self.inline_target(n, st) is not None for n in ast.walk(node)):
+            return [(st, node)]
+        orig = node
+        states = [st]
+        counter = self.__dict__.setdefault('_tmp', [0])
+        while True:
+            target = None
+            for n in ast.walk(node):
+                if isinstance(n, ast.Call) and self.inline_target(n, states[0]) is not None:
+                    if not any(m is not n and isinstance(m, ast.Call) and self.inline_target(m, states[0]) is not None for m in ast.walk(n)):
+                        target = n
+                        break
+            if target is None:
+                break
+            counter[0] += 1
+            tmp = '__inl{}'.format(counter[0])
+            nxt = []
+            for s_ in states:
+                res = self.inline_call(target, s_, done)
+                if res is None:
+                    return [(st, orig)]
+                for s2, rv in res:
+                    s2.env[tmp] = rv
+                    nxt.append(s2)
+            states = nxt
+            if not states:
+                return []
+            node = _replace(node, target, ast.copy_location(ast.Name(id=tmp, ctx=ast.Load()), target))
+        return [(s_, node) for s_ in states]
 
 
 def split_isinstance(v):
@@ -240,12 +389,14 @@ def _replace(root, old, new):
     return R().visit(root)
 
 
-def function_paths(facts, fn, inline='all', opaque=(), name_results=False, max_paths=20000):
+def function_paths(facts, fn, inline='all', opaque=(), name_results=False, max_paths=20000, self_class=None):
     """Every path through the body of `fn` (a FunctionDef: module-level function, method or nested function) with its parameters
-    symbolic.  Returns (walker, [PathState])."""
+    symbolic (`self_class`: the class of the first parameter of a method).  Returns (walker, [PathState])."""
     w = HWalker(facts, root_fn=fn, inline=inline, opaque=opaque, name_results=name_results, max_paths=max_paths)
     st = PathState()
     a = fn.args
+    if self_class is not None and a.args:
+        st.fact(('name', a.args[0].arg))['isa'].add(self_class)
     for x in getattr(a, 'posonlyargs', []) + a.args + a.kwonlyargs:
         st.env[x.arg] = ('name', x.arg)
     if a.vararg:
@@ -253,6 +404,65 @@ def function_paths(facts, fn, inline='all', opaque=(), name_results=False, max_p
     if a.kwarg:
         st.env[a.kwarg.arg] = ('name', a.kwarg.arg)
     return w, w.run(fn.body, st)
+
+
+def loop_paths_h(facts, fn, inline='all', opaque=()):
+    """pathwalk.loop_paths with the higher-order walker: path summaries of one iteration of the first top-level `for` (or `while`)
+    loop of `fn` (locals that the loop mutates are the symbolic ('lv', name)).  Returns (loop node, [PathState]); for a while loop
+    the state before the loop is available as paths[i].pre_env."""
+    from .pathwalk import MUTATORS
+    from .core import AnalysisError
+    w = HWalker(facts, root_fn=fn, inline=inline, opaque=opaque)
+    pre = PathState()
+    for a in fn.args.args + fn.args.kwonlyargs:
+        pre.env[a.arg] = ('name', a.arg)
+    target = None
+    prelude_done = []
+    live = [pre]
+    for node in fn.body:
+        if isinstance(node, (ast.For, ast.While)):
+            target = node
+            break
+        nxt = []
+        for s in live:
+            nxt.extend(w.stmt(node, s, prelude_done))
+        live = nxt
+    if target is None:
+        raise AnalysisError('anchor vanished: main loop of {}'.format(fn.name))
+    mutated = set()
+    for n in ast.walk(target):
+        if isinstance(n, ast.Name) and isinstance(n.ctx, ast.Store):
+            mutated.add(n.id)
+        if isinstance(n, ast.Call) and isinstance(n.func, ast.Attribute) and isinstance(n.func.value, ast.Name) and n.func.attr in MUTATORS:
+            mutated.add(n.func.value.id)
+        if isinstance(n, ast.Subscript) and isinstance(n.ctx, ast.Store) and isinstance(n.value, ast.Name):
+            mutated.add(n.value.id)
+    params = {a.arg for a in fn.args.args + fn.args.kwonlyargs}
+    results = []
+    for s in live:
+        pre_env = dict(s.env)
+        s = s.clone()
+        s.events = []
+        s.conds = []
+        for n in mutated:
+            if n in s.env and n not in params and s.env[n][0] not in ('closure',):
+                s.env[n] = ('lv', n)
+        if isinstance(target, ast.While):
+            test = w.sym(target.test, s)
+            paths = w.run(target.body, s)
+            for p in paths:
+                p.pre_env = pre_env
+                p.loop_test = test
+            results.extend(paths)
+            continue
+        if isinstance(target.target, ast.Name):
+            s.env[target.target.id] = ('item', target.target.id)
+        else:
+            for e in ast.walk(target.target):
+                if isinstance(e, ast.Name):
+                    s.env[e.id] = ('item', e.id)
+        results.extend(w.run(target.body, s))
+    return target, results
 
 
 def all_values(path):
